@@ -9,6 +9,13 @@ from . import framework
 
 
 def main():
+    # `kill -USR1 <pid>` prints the Python stack of a check (or of one of its workers) to stderr
+    try:
+        import faulthandler
+        import signal
+        faulthandler.register(signal.SIGUSR1, all_threads=True)
+    except Exception:       # noqa
+        pass
     ap = argparse.ArgumentParser()
     ap.add_argument('prop')
     ap.add_argument('--tier', default=os.environ.get('VERIF_TIER', 'quick'), choices=['quick', 'thorough'])
